@@ -6,6 +6,7 @@ package main
 
 import (
 	"context"
+	"flag"
 	"fmt"
 	"sort"
 	"strings"
@@ -64,6 +65,8 @@ func probe(sql, want string) string {
 func strconvQ(s string) string { return fmt.Sprintf("%q", s) }
 
 func main() {
+	extended := flag.Bool("x", false, "also the extended product of contexts before and after the name")
+	flag.Parse()
 	bad, n := 0, 0
 	report := func(ok bool, kw, pos, sp, detail string) {
 		n++
@@ -119,6 +122,66 @@ func main() {
 				report(d == "", kw, "column-alias"+c.name, sp, d)
 				d = probe(c.pre+"SELECT 1 FROM t AS "+sp+c.post, "TableIdentifier t (alias "+sp+")")
 				report(d == "", kw, "table-alias"+c.name, sp, d)
+			}
+		}
+	}
+	// extended product: what stands before the name (qualifier / aliased expression / table expression) and what follows it
+	if *extended {
+		exprs := []string{"1", "'a'", "a", "f(x)", "a + b", "[1, 2]", "[1, NULL]::Array(Nullable(UInt8))", "(1, 2)", "x::UInt8", "CAST(x AS UInt8)", "(SELECT 1)",
+			"CASE WHEN a THEN 1 END", "-1", "NULL", "count(*)", "a.b", "NOT a", "[true]::Array(Bool)", "(1, NULL)::Tuple(UInt8, Nullable(UInt8))"}
+		colFollow := []string{"", ", 2", " FROM t", " FROM t WHERE 1", " UNION ALL SELECT 2", " ORDER BY 1", " FORMAT Null", " SETTINGS a = 1", " LIMIT 1", " FROM t GROUP BY 1 WITH TOTALS"}
+		tables := []string{"t", "db.t", "(SELECT 1)", "numbers(10)"}
+		tabFollow := []string{"", " WHERE 1", " WITH TOTALS", " GROUP BY 1", " ORDER BY 1", " LIMIT 1", " JOIN u ON 1", ", u", " SAMPLE 0.1", " PREWHERE 1", " ARRAY JOIN a",
+			" UNION ALL SELECT 2", " FORMAT Null", " SETTINGS a = 1", " FINAL", " GROUP BY 1 WITH TOTALS"}
+		quals := []struct{ q, from string }{{"t", "t"}, {"db.t", "db.t"}, {"left", "a AS left"}, {"key", "a AS key"}, {"u", "(SELECT 1) AS u"}}
+		has := func(sql, want string) string {
+			stmts, err := func() (s []interface{}, e error) {
+				defer func() {
+					if r := recover(); r != nil {
+						e = fmt.Errorf("panic: %v", r)
+					}
+				}()
+				ss, err := parser.Parse(context.Background(), strings.NewReader(sql))
+				for _, x := range ss {
+					s = append(s, x)
+				}
+				return s, err
+			}()
+			if err != nil {
+				return "error: " + err.Error()
+			}
+			if len(stmts) != 1 {
+				return fmt.Sprintf("%d statements", len(stmts))
+			}
+			ss, _ := parser.Parse(context.Background(), strings.NewReader(sql))
+			if text := parser.Explain(ss[0]); !strings.Contains(text, want) {
+				return "EXPLAIN lacks " + strconvQ(want)
+			}
+			return ""
+		}
+		for i, kw := range kws {
+			for _, sp := range cases(kw, i)[1:3] {
+				for _, q := range quals {
+					for _, tmpl := range []string{"SELECT %s.%s FROM %s", "SELECT f(%s.%s) FROM %s", "SELECT %s.%s + 1, 2 FROM %s"} {
+						sql := fmt.Sprintf(tmpl, q.q, sp, q.from)
+						d := has(sql, "Identifier "+q.q+"."+sp)
+						report(d == "", kw, "x:column-after-dot", sp, d+"\t"+sql)
+					}
+				}
+				for _, e := range exprs {
+					for _, f := range colFollow {
+						sql := "SELECT " + e + " AS " + sp + f
+						d := has(sql, "(alias "+sp+")")
+						report(d == "", kw, "x:column-alias", sp, d+"\t"+sql)
+					}
+				}
+				for _, t := range tables {
+					for _, f := range tabFollow {
+						sql := "SELECT 1 FROM " + t + " AS " + sp + f
+						d := has(sql, "(alias "+sp+")")
+						report(d == "", kw, "x:table-alias", sp, d+"\t"+sql)
+					}
+				}
 			}
 		}
 	}
